@@ -68,7 +68,11 @@ func ProvideMintFn(bankKeeper BankKeeper) minttypes.MintFn {
 		}
 
 		lastMint := binary.BigEndian.Uint64(minter.Data)
-		binary.BigEndian.PutUint64(minter.Data, (uint64)(env.HeaderService.HeaderInfo(ctx).Time.Unix()))
+		// store the new time in a fresh slice: x/mint persists the minter only if it differs from the copy it took
+		// before calling this function, and that copy shares the backing array of minter.Data
+		newData := make([]byte, 8)
+		binary.BigEndian.PutUint64(newData, (uint64)(env.HeaderService.HeaderInfo(ctx).Time.Unix()))
+		minter.Data = newData
 
 		// calculate the amount of tokens to mint, based on the time since the last mint
 		secondsSinceLastMint := env.HeaderService.HeaderInfo(ctx).Time.Unix() - (int64)(lastMint)
